@@ -138,6 +138,11 @@ class FuseSuccessiveClip(_FuseReluClipBase):
                 return ir.tensor(val2)
             return None
 
+        if max_clip1 is not None and min_clip2 is not None:
+            # The second Clip lifts whatever the first one produced to at least min_clip2,
+            # including the first upper bound: Clip(Clip(x, 0, 1), 2, 5) is 2, not 1.
+            max_clip1 = np.maximum(max_clip1, min_clip2)
+
         min_clip = combine(min_clip1, min_clip2, np.maximum)
         max_clip = combine(max_clip1, max_clip2, np.minimum)
 
@@ -169,6 +174,15 @@ class FuseSuccessiveReluClip(FuseSuccessiveClipRelu):
 
     def pattern(self, op, x):
         return op.Relu(op.Clip(x, _allow_other_inputs=True, _outputs=["out_first_clip"]))
+
+    def compute_clip_min_max(self, first_clip_node: ir.Node, _):
+        min_clip, max_clip = super().compute_clip_min_max(first_clip_node, _)
+        if max_clip is not None:
+            # The Relu comes after the Clip, so a negative upper bound is lifted to 0 as well:
+            # Relu(Clip(x, lo, -1)) is 0, not -1.
+            max_value = max_clip.numpy()
+            max_clip = ir.tensor(np.maximum(0, max_value).astype(max_value.dtype))
+        return min_clip, max_clip
 
 
 successive_relu_rule = FuseSuccessiveRelu().rule()
